@@ -3,6 +3,7 @@ import vlib
 class P(vlib.Prop):
     id = "C19"
     watch = ("pkg/apk/apk/cache.go", "pkg/paths/paths.go", "pkg/apk/apk/implementation.go", "pkg/apk/expandapk/expandapk.go")
+    coq_targets = ["Properties/C19.vo", "Corr/C19.vo"]
     rule = ("one harness run = real apko layer builds (pkg/build, the code path of `apko build`) as separate PROCESSES against a synthetic signed "
             "repository served over HTTP with ETags, three repository revisions (new index etag, a new package version, two packages rebuilt under the "
             "same name-version with other data, one rebuilt with only its control section changed). Cases: (a) listings of the cache directory after "
@@ -14,7 +15,16 @@ class P(vlib.Prop):
             "file with which content) and the completion of every process are compared; (c) strace traces of real builds abstracted to the model's step "
             "alphabet, `accepts protocol trace` evaluated in Coq. Every build that runs to the end with the cache is compared with a build WITHOUT cache "
             "(layer digest); after every kill (on a copy of the cache) and at the end of every scenario an offline build must give the digest of some "
-            "served revision or an error. A case is distinct by its term; all are non-trivial.")
+            "served revision or an error. (d) request coalescing: the REAL flightCache / Cache / cacheTransport (export_c19_verif.go) driven with scripted "
+            "outcomes of fn — sequences of calls over several keys (a failure, then successes; random scripts) and n callers arriving while the leader's "
+            "execution is held — compared with the model run in the configuration goextract reads from the shape of the source, and judged by the verified "
+            "validator (c19_flight_seq_sound); three builds in ONE process sharing one apk.Cache with a transient fault of the origin during the first "
+            "(key discovery, a package, the index), compared with the same process history WITHOUT cache. (e) fetchOffline: real directories with chosen "
+            "modification times (ties, leftovers, every order of three revisions' names, two files in one directory) and the directories real builds left "
+            "behind (failed download in a surviving process, three publications in every order, keyring URLs) handed to the real fetchOffline; the entry it "
+            "opened is compared with pick_newest and judged by validate_offline (c19_offline_validator_decides). (f) one scenario through the repository's "
+            "own `apko build` binary (built with the verif tag): cold, warm, update killed at a hook, offline, recovery, roll-back, each against the CLI "
+            "build without cache. A case is distinct by its term; all are non-trivial.")
     stages = (
         dict(name="cache", cmd="c19", args=lambda t, s: ["-stage", "all"], timeout=1500),
     )
@@ -40,7 +50,14 @@ class P(vlib.Prop):
                   "c19_offline_refuted (an error on the real code, allowed), c19_lookup_not_atomic_refuted (finding C19-F2) and c19_stale_hit_without_sig_refuted "
                   "(finding C19-F3): a hit can lack the signature section, whose size is written into the image. c19_f2_fix_transparent: with the control section "
                   "advertised last (fixes/C19-F2.patch, proposed) a lookup that reads the four sections in four different states is exact. "
-                  "c19_offline_tmp_complete_is_origin: a temporary index file holds a prefix of a served body, the whole body when complete.")
+                  "c19_offline_tmp_complete_is_origin: a temporary index file holds a prefix of a served body, the whole body when complete. "
+                  "Coalescing (one model object for singleflight groups, flightCache.Do, the etag cache in front of headFlight, the sync.Once package memo; configuration "
+                  "read from the source: c19_flight_code): c19_flight_transparent (every trace: a caller only ever gets a result some execution of fn returned for its key; "
+                  "one execution per key at a time), c19_flight_no_error_memo (flight caches never keep a failure; after failures only, a later call executes again and its "
+                  "success is returned), c19_flight_memo_permanent, c19_flight_seq_sound; REFUTED c19_once_cache_error_memo_refuted (finding C19-F4: apkCache.get keeps "
+                  "errors). fetchOffline: c19_offline_picks_newest (every directory, every listing order, ties: the first newest entry; order-independent when the maximum "
+                  "is unique); REFUTED c19_offline_entry_refuted (findings C19-F5: a partial leftover *.tmp is opened; C19-F6: the entry of another file in a shared "
+                  "directory — a wrong image offline), with the two repairs proved.")
     level_note = ("trusted: Coq kernel, Go harness/printer and its path abstraction, strace; modelled not verified: the Go text of fetchAndCache / get / retrieveAndSaveFile / "
                   "AdvertiseCachedFile / ExpandApk / cachePackage / cachedPackage / PackageData / fetchOffline, the host filesystem, gzip/tar/RSA, net/http; "
                   "crash, concurrency and tamper experiments are exploration supporting the model, not proof")
